@@ -254,12 +254,3 @@ Definition cex_implies (p q : spol) : option (list spol) :=
 (* minimum_n_keys counts key leaves, not distinct keys *)
 Definition has_dup_keys (p : spol) : bool :=
   negb (length (dedupN (keys_of p)) =? length (keys_of p)).
-(* lift re-runs check_timelocks on every sub-policy, also inside unsatisfiable branches that
-   check_timelocks itself ignores: it can refuse a policy that check_timelocks accepts *)
-Fixpoint any_sub_rejected (c : cpol) : bool :=
-  negb (check_timelocks c) ||
-  match c with
-  | CAnd subs | COr subs | CThresh _ subs => existsb any_sub_rejected subs
-  | _ => false
-  end.
-Definition lift_refusal_defect (c : cpol) : bool := check_timelocks c && any_sub_rejected c.
